@@ -46,6 +46,11 @@ def main(tier, only=None):
         e1.run_set(chk, "c13/arith.c", [e1.H("h_primary_ident", "arith/identifier-operand-by-scope-entry", unwind=12, timeout=600, native=False, object_bits=12,
                                             desc="primary() on an identifier whose scope entry is an object / typedef / enumerator / absent")],
                    extra_src=[os.path.join(vf.REPO, "type.c"), os.path.join(vf.REPO, "hashmap.c")])
+        e1.run_set(chk, "c13/arith.c", [e1.H("h_declarator_nesting", "arith/declarator-nesting-linear", unwind=20, timeout=900, native=False, object_bits=12,
+                                            replace_calls=("pointers:stub_pointers",), flags=("--unwindset", "declarator:300"),
+                                            desc="declarator() on n <= 7 nested parentheses: accepted, with work linear in n")],
+                   extra_src=[os.path.join(vf.REPO, "type.c")])
+        chk.bounds += ["declarator nesting: `( ( ... x ... ) ) ;` with 0..7 pairs of parentheses (symbolic): accepted, at most 2n+2 entries into declarator()"]
         chk.bounds += ["identifier operands: the scope entry of the identifier is symbolic over {absent, object, typedef name, enumeration constant (symbolic value)}"]
         chk.bounds += ["additive operators: new_add / new_sub on all 8 x 8 pairs of operand type kinds (int, long, double, pointer, array, struct, void, pointer to VLA row), symbolic selection"]
     if want("driver"):
